@@ -32,6 +32,16 @@ CLAIMED["C03"] = dict(
    note="Trusted: as C02. Partial: containers/unions/data classes idempotence is checked by execution only (parse correspondence + "
         "re-parse oracle), three known findings (lax max_digits carry, heterogeneous &, ^ output).",
    technique="Coq proofs over lax validators regenerated from source + re-parse oracle and correspondence on the implementation", design="§8 C03")
+CLAIMED["C18"] = dict(
+   text="Machine-checked proof (Coq), partial: theorem C18_list_exact — for `class Node: v: int; link: List[Node]` with max_depth=d, EVERY "
+        "tree-shaped input (any size, branching, position of the deep branch) is accepted exactly when its data-class nesting depth "
+        "is <= d (induction over rose trees on the executable model of RuntimeContext/Rule.parse/init_dataclass); C18_levels_add_up "
+        "for any enclosing level. Other link kinds (Optional, Dict with str/float/Decimal/bool keys, Tuple, Union, List[Optional]) and "
+        "option sets are decided by the depth correspondence suite and the nesting oracle. The cost half is refuted on the "
+        "implementation (exponential, known finding) and not proved.",
+   note="Trusted: Coq kernel; hand model Model/Parse.v + Ctx.v tied by the depth correspondence suite (0 mismatches required); "
+        "harness generators. Partial: theorem covers the List family; cost bound is a known finding, measured with a counting leaf type.",
+   technique="Coq proof by induction over input trees on the executable parse model + model/implementation correspondence", design="§8 C18")
 NOT_YET = {}
 for i in range(1, 21):
     pid = "C%02d" % i
